@@ -160,6 +160,8 @@ def evaluate(pid, cases, oc=None, compare_outside_domain=False):
         oc.evaluations += 1
         oc.count('class:' + c['cls'])
         rec = {'kind': 'add', 'label': c['label'], 'cls': c['cls'], 'ro_text': ro_text, 'msg_text': msg_text}
+        if 'live_history' in c:
+            rec['live_history'] = c['live_history']
         if 'ro_load' in o:
             # the library cannot read the running-order document itself (it has a roCreate)
             what = 'the running-order document is not read as a RunningOrder: %r' % (o['ro_load'],)
@@ -204,15 +206,9 @@ def evaluate(pid, cases, oc=None, compare_outside_domain=False):
                 oc.failing.append(dict(rec, spec=key,
                                        impl={'err': o['err'], 'warns': o['warns'], 'ro_text': TJ.to_text(o['ro'])},
                                        model={'err': model['err'], 'warns': model['warns'], 'ro_text': TJ.to_text(model['ro'])}))
-        if pid == 'C07' and 'completed_attr' in o and o['completed_attr'] != completed(o['ro']):
-            # the `completed` accessor of the live object must agree with the document
-            oc.failing.append(dict(rec, spec='C07 accessor: ro.completed=%r but the document %s a completion record'
-                                   % (o['completed_attr'], 'has' if completed(o['ro']) else 'has no'),
-                                   impl={'err': o['err'], 'warns': o['warns'], 'ro_text': TJ.to_text(o['ro'])}))
-        if pid == 'C07' and completed(o['ro']) and o.get('reread') is not None and o['reread'] != {'cls': 'RunningOrder', 'completed': True}:
-            oc.failing.append(dict(rec, spec='a completed running order written out and read back must be a RunningOrder that is '
-                                   'still completed; got %r' % (o['reread'],),
-                                   impl={'err': o['err'], 'warns': o['warns'], 'ro_text': TJ.to_text(o['ro'])}))
+        if pid == 'C07':
+            for spec in c07_extra(o):
+                oc.failing.append(dict(rec, spec=spec, impl={'err': o['err'], 'warns': o['warns'], 'ro_text': TJ.to_text(o['ro'])}))
         if (dom or pid in ('C05', 'C07')) and nontrivial(pid, c, impl_o, ro_t):
             h = stable_hash([ro_text, msg_text])
             if h not in oc.nontrivial:
@@ -224,13 +220,37 @@ def evaluate(pid, cases, oc=None, compare_outside_domain=False):
     return oc
 
 
+def c07_extra(o):
+    """C07 observations beyond the merge step itself: the `completed` accessor, the written-out and
+    re-read document, and the refusal under -W error."""
+    out = []
+    if 'completed_attr' in o and o['completed_attr'] != completed(o['ro']):
+        out.append('C07 accessor: ro.completed=%r but the document %s a completion record'
+                   % (o['completed_attr'], 'has' if completed(o['ro']) else 'has no'))
+    if completed(o['ro']) and o.get('reread') is not None and o['reread'] != {'cls': 'RunningOrder', 'completed': True}:
+        out.append('a completed running order written out and read back must be a RunningOrder that is '
+                   'still completed; got %r' % (o['reread'],))
+    if o.get('werror') is not None and o['werror'] != {'err': 'MosCompletedMergeError', 'unchanged': True}:
+        out.append('adding to the completed running order with warnings promoted to errors (-W error) '
+                   'must raise MosCompletedMergeError and change nothing; got %r' % (o['werror'],))
+    return out
+
+
 # ---- replay of a recorded input ------------------------------------------------------------------
 
 def replay_add(pid, rec):
     """Re-run one recorded (ro_text, msg_text) on the current tree; returns (still_failing, detail)."""
     from . import lean
-    o = _impl_one((rec['ro_text'], rec['msg_text']))
-    ro_t, msg_t = TJ.parse(rec['ro_text']), TJ.parse(rec['msg_text'])
+    if 'live_history' in rec:
+        # object re-use / direct msg.merge(ro): only the live history reproduces the step
+        from . import hist_run
+        before, o = hist_run.replay_live(rec['live_history'])
+        if o is None:
+            return False, {'note': 'the last step of the recorded history is no longer classified'}
+        ro_t, msg_t = before, TJ.parse(rec['msg_text'])
+    else:
+        o = _impl_one((rec['ro_text'], rec['msg_text']))
+        ro_t, msg_t = TJ.parse(rec['ro_text']), TJ.parse(rec['msg_text'])
     if 'ro_load' in o:
         return True, {'impl': o}
     req = {'op': 'add', 'ro': ro_t, 'msg': msg_t}
@@ -241,6 +261,9 @@ def replay_add(pid, rec):
               'model': {k: (TJ.to_text(v) if k == 'ro' else v) for k, v in r.get('model', {}).items()},
               'props': r.get('props')}
     failing = False
+    if pid == 'C07' and 'err' in o and c07_extra(o):
+        failing = True
+        detail['c07'] = c07_extra(o)
     if 'props' in r:
         for key in [pid] + EXTRA_KEYS.get(pid, []):
             v = r['props'].get(key)
